@@ -107,7 +107,7 @@ theorem flushStart_ok {m : Mem} {d : Disk} {name : Nat} {kvs : List (Nat × Nat)
         have ho : ({ f with flusher := some ⟨none, seqs⟩ } : Fam).opt = f.opt := rfl
         refine ⟨fun k => Or.inl (by rw [take_nil_disk]; exact h.cons), ?_, rfl⟩
         simp only [applyFsList_nil]
-        refine ⟨?_, h.cur, h.jlt, h.nums, h.wf, ?_, ?_, ?_⟩
+        refine ⟨?_, h.cur, h.jlt, h.nums, h.wf, ?_, ?_, ?_, ?_⟩
         · simp only [setFam_info h.names hfm ho, setFam_vs, setFam_cfg]; exact h.cons
         · rw [setFam_ids h.names hfm ho]; exact h.ids
         · intro g hg x hx
@@ -120,6 +120,11 @@ theorem flushStart_ok {m : Mem} {d : Disk} {name : Nat} {kvs : List (Nat × Nat)
             subst hfl'
             simp at hb
           · exact h.builder g hg fl hfl' n c hb
+        · refine ⟨h.seq.1, ?_⟩
+          intro g hg
+          rcases mem_setFam h.names hfm ho hg with rfl | ⟨hg, _⟩
+          · exact h.seq.2 f hfm
+          · exact h.seq.2 g hg
       | cons kv acc =>
         simp only [hacc, Option.some.injEq, Prod.mk.injEq] at he
         obtain ⟨rfl, rfl⟩ := he
@@ -143,7 +148,7 @@ theorem flushStart_ok {m : Mem} {d : Disk} {name : Nat} {kvs : List (Nat × Nat)
           | zero => simpa [applyFsList, absOf] using h.cons
           | succ k => simpa [applyFsList] using hstep
         · show Inv (m1.setFam f') (applyFs d (.createTable name n))
-          refine ⟨?_, ?_, ?_, ?_, ?_, ?_, ?_, ?_⟩
+          refine ⟨?_, ?_, ?_, ?_, ?_, ?_, ?_, ?_, ?_⟩
           · have : (m1.setFam f').info = m.info := setFam_info hn1 hfm ho
             rw [this]
             exact hstep.reref m.cfg
@@ -177,6 +182,11 @@ theorem flushStart_ok {m : Mem} {d : Disk} {name : Nat} {kvs : List (Nat × Nat)
               simp only [Option.some.injEq, Prod.mk.injEq] at hb
               simp [f', hb.1.symm]
             · exact h.builder g hg fl hfl' n' c hb
+          · refine ⟨h.seq.1, ?_⟩
+            intro g hg
+            rcases mem_setFam hn1 hfm ho hg with rfl | ⟨hg, _⟩
+            · exact h.seq.2 f hfm
+            · exact h.seq.2 g hg
 
 theorem Consistent.change_ref (cfg : Cfg) {y z : Disk} {info : List FamOpt} {fams : List FamV} {R : Disk}
     (hy : Consistent cfg y ⟨info, fams, R⟩) (hz : Consistent cfg z ⟨info, fams, R⟩) :
@@ -194,7 +204,7 @@ theorem Consistent.change_ref (cfg : Cfg) {y z : Disk} {info : List FamOpt} {fam
 /-- allocating a number (NextFileNumber) keeps the invariant -/
 theorem Inv.bump {m : Mem} {d : Disk} (h : Inv m d) :
     Inv { m with vs := { m.vs with next := m.vs.next + 1 } } d := by
-  refine ⟨h.cons, h.cur, ?_, ?_, ⟨h.wf.ids_nodup, h.wf.ids_ne_store, h.wf.vers⟩, h.ids, ?_, h.builder⟩
+  refine ⟨h.cons, h.cur, ?_, ?_, ⟨h.wf.ids_nodup, h.wf.ids_ne_store, h.wf.vers⟩, h.ids, ?_, h.builder, h.seq⟩
   · have := h.jlt; show m.journal < m.vs.next + 1; omega
   · intro f hf x hx; have := h.nums f hf x hx; show x < m.vs.next + 1; omega
   · intro f hf x hx
@@ -395,7 +405,8 @@ theorem finish_ok {m : Mem} {d : Disk} {pre cops : List FsOp} {fid : Int} {logs 
     (hpost : TableOnly ⟨m.info, m1.vs.fams, applyFsList d pre⟩ post)
     (m' : Mem) (hcfg : m'.cfg = m.cfg) (hvs : m'.vs = m1.vs) (hj : m'.journal = m.journal) (hinfo : m'.info = m.info)
     (hpend : ∀ f ∈ m'.fams, ∀ x ∈ f.pending, x < m'.vs.next ∧ ∀ v, m'.vs.verOf f.opt.id = some v → x ∉ v.nums)
-    (hbuilder : ∀ f ∈ m'.fams, ∀ fl, f.flusher = some fl → ∀ n c, fl.builder = some (n, c) → n ∈ f.pending) :
+    (hbuilder : ∀ f ∈ m'.fams, ∀ fl, f.flusher = some fl → ∀ n c, fl.builder = some (n, c) → n ∈ f.pending)
+    (hseq : m'.familySeq = m.familySeq) :
     OpOK m d m' (pre ++ cops ++ post) := by
   let x := applyFsList d pre
   let PB : Disk → Prop := fun y => Consistent m.cfg y ⟨m.info, m1.vs.fams, x⟩ ∧ y.current = some m.journal
@@ -419,7 +430,7 @@ theorem finish_ok {m : Mem} {d : Disk} {pre cops : List FsOp} {fid : Int} {logs 
       have : (pre ++ cops).length + i - (pre ++ cops).length = i := by omega
       rw [this]
       exact ((prefix_inv PB post _ hB0 hBpost i).1).change_ref m.cfg hfin.1
-  · refine ⟨?_, ?_, ?_, ?_, ?_, ?_, hpend, hbuilder⟩
+  · refine ⟨?_, ?_, ?_, ?_, ?_, ?_, hpend, hbuilder, ?_⟩
     · rw [hcfg, hinfo, hvs]; exact hfin.1.reref m.cfg
     · rw [hj]; exact hfin.2
     · rw [hj, hvs]; have := h.jlt; have := hr.next_le; omega
@@ -427,6 +438,13 @@ theorem finish_ok {m : Mem} {d : Disk} {pre cops : List FsOp} {fid : Int} {logs 
     · rw [hvs, hcfg]; exact hr.wf
     · rw [hvs, hr.ids, h.ids]
       exact (ids_of_info hinfo).symm
+    · rw [hseq]
+      refine ⟨h.seq.1, ?_⟩
+      intro f hf
+      have hopt : f.opt ∈ m.info := by rw [← hinfo]; simp only [Mem.info, List.mem_map]; exact ⟨f, hf, rfl⟩
+      simp only [Mem.info, List.mem_map] at hopt
+      obtain ⟨g, hg, hgo⟩ := hopt
+      rw [← hgo]; exact h.seq.2 g hg
 
 theorem tableOnly_nil (a : Abs) : TableOnly a [] := by intro o ho; simp at ho
 
@@ -468,6 +486,7 @@ theorem editCommit_ok {m : Mem} {d : Disk} {name : Nat} {logs : List Log} {m' : 
           intro g hg
           have hg' : g ∈ m.fams := by rw [hmem] at hg; exact hg
           exact h.builder g hg')
+        (by rw [hmem])
       simpa using this
     · simp [hb] at he
 
@@ -651,7 +670,464 @@ theorem flushCommit_ok {m : Mem} {d : Disk} {name : Nat} {size : Nat} {m' : Mem}
             · simp [f'] at hfl'
             · have hg' : g ∈ m.fams := by rw [← hm1]; exact hg
               exact h.builder g hg' fl' hfl' n c hb)
+          (by show m1.familySeq = m.familySeq; rw [hr.mem])
         rw [List.append_nil] at this
         exact this
+
+/-! ### createFamily -/
+
+theorem updFams_append_other (fams : List FamV) (g : FamV) (fid : Int) (logs : List Log) (h : g.id ≠ fid) :
+    updFams (fams ++ [g]) fid logs = updFams fams fid logs ++ [g] := by
+  simp [updFams, h]
+
+theorem foldl_setNumbers_eq (logs : List Log) (s : VS) :
+    logs.foldl setNumbers s = ⟨s.fams, (logs.foldl setNumbers s).manifestNo, (logs.foldl setNumbers s).next⟩ := by
+  have := foldl_setNumbers_fams s logs
+  cases hq : logs.foldl setNumbers s with
+  | mk f a b => rw [hq] at this; simp only at this; simp [this]
+
+/-- a family that no record mentions rides along through the replay unchanged -/
+theorem replayRecs_extend (g : FamV) (hg : g.id ≠ storeFamilyID) :
+    ∀ (recs : List Bytes) (s s1 : VS), replayRecs s recs = (s1, true) → g.id ∉ s.fams.map (·.id) →
+      replayRecs ⟨s.fams ++ [g], s.manifestNo, s.next⟩ recs = (⟨s1.fams ++ [g], s1.manifestNo, s1.next⟩, true) := by
+  intro recs
+  induction recs with
+  | nil =>
+    intro s s1 h _
+    simp only [replayRecs, Prod.mk.injEq, and_true] at h
+    subst h; rfl
+  | cons r t ih =>
+    intro s s1 h hni
+    simp only [replayRecs] at h ⊢
+    cases hu : unmarshal r with
+    | none => simp [hu] at h
+    | some el =>
+      simp only [hu] at h ⊢
+      cases ha : applyEL s el with
+      | none => simp [ha] at h
+      | some s' =>
+        simp only [ha] at h
+        have hext : applyEL ⟨s.fams ++ [g], s.manifestNo, s.next⟩ el = some ⟨s'.fams ++ [g], s'.manifestNo, s'.next⟩ := by
+          unfold applyEL at ha ⊢
+          by_cases h1 : el.fid = storeFamilyID
+          · simp only [h1, if_true, Option.some.injEq] at ha ⊢
+            subst ha
+            rw [foldl_setNumbers_eq el.logs ⟨s.fams ++ [g], s.manifestNo, s.next⟩]
+            have hc := foldl_setNumbers_congr el.logs ⟨s.fams ++ [g], s.manifestNo, s.next⟩ s rfl rfl
+            rw [hc.1, hc.2, foldl_setNumbers_fams]
+          · simp only [h1, if_false] at ha ⊢
+            by_cases h2 : s.hasFam el.fid = true
+            · have h2' : VS.hasFam ⟨s.fams ++ [g], s.manifestNo, s.next⟩ el.fid = true := by
+                rw [hasFam_iff] at h2 ⊢
+                simp only [List.map_append, List.mem_append]
+                exact Or.inl h2
+              simp only [h2, if_true, Option.some.injEq] at ha
+              simp only [h2', if_true, Option.some.injEq]
+              subst ha
+              rw [foldl_applyLogVS, foldl_applyLogVS]
+              have hne : g.id ≠ el.fid := by
+                intro e
+                rw [hasFam_iff] at h2
+                exact hni (e ▸ h2)
+              have hc := foldl_setNumbers_congr el.logs ⟨s.fams ++ [g], s.manifestNo, s.next⟩ s rfl rfl
+              simp only [updFams_append_other _ _ _ _ hne, hc.1, hc.2]
+            · simp [h2] at ha
+        rw [hext]
+        simp only
+        have := ih s' s1 h (by rw [applyEL_ids ha]; exact hni)
+        exact this
+
+theorem createFamily_consistent (cfg : Cfg) {d : Disk} {info : List FamOpt} {fams : List FamV} (R0 : Disk)
+    (h : Consistent cfg d ⟨info, fams, R0⟩) (o : FamOpt)
+    (hname : o.name ∉ info.map (·.name)) (hid : o.id ∉ info.map (·.id)) (hst : o.id ≠ storeFamilyID)
+    (y R : Disk) (hy1 : y.options.getD [] = info ++ [o]) (hy2 : y.current = d.current)
+    (hy3 : ∀ j, d.current = some j → Map.lookup y.manifests j = Map.lookup d.manifests j)
+    (hy4 : ∀ name f, y.table name f = d.table name f) (hR : ∀ name f, R.table name f = d.table name f) :
+    Consistent cfg y ⟨info ++ [o], fams ++ [⟨o.id, Version.empty cfg.levels⟩], R⟩ := by
+  obtain ⟨vs0, hrec, hf0, hwf0, hnx0, hnums0, hcur0⟩ := h.recov
+  have hids0 : vs0.fams.map (·.id) = info.map (·.id) := by
+    have := recoverVS_ids cfg d
+    rw [hrec, h.opts] at this
+    exact this
+  let g : FamV := ⟨o.id, Version.empty cfg.levels⟩
+  have hrec' : recoverVS cfg y = (⟨vs0.fams ++ [g], vs0.manifestNo, vs0.next⟩, true) := by
+    have hinit : VS.init cfg.levels ((info ++ [o]).map (·.id)) =
+        ⟨(VS.init cfg.levels (info.map (·.id))).fams ++ [g], (VS.init cfg.levels (info.map (·.id))).manifestNo,
+          (VS.init cfg.levels (info.map (·.id))).next⟩ := by
+      simp [VS.init, g]
+    have hgni : g.id ∉ (VS.init cfg.levels (info.map (·.id))).fams.map (·.id) := by
+      simpa [VS.init, List.map_map, Function.comp_def, g] using hid
+    cases hc : d.current with
+    | none =>
+      simp only [recoverVS, hy1, hy2, hc, hinit]
+      simp only [recoverVS, h.opts, hc, Prod.mk.injEq, and_true] at hrec
+      rw [← hrec]
+    | some j =>
+      obtain ⟨mf, hl, htorn, hrep⟩ := recoverVS_current hc hrec
+      rw [h.opts] at hrep
+      simp only [recoverVS, hy1, hy2, hc, hy3 j hc, hl, replay, htorn, Bool.and_false, hinit]
+      exact replayRecs_extend g hst mf.recs _ _ hrep hgni
+  refine ⟨hy1, ?_, ?_, ?_⟩
+  · simp only [List.map_append, List.map_cons, List.map_nil]
+    rw [List.nodup_append]
+    refine ⟨h.names, by simp, ?_⟩
+    intro a ha b hb
+    simp only [List.mem_singleton] at hb
+    subst hb
+    intro e; subst e; exact hname ha
+  · refine ⟨_, hrec', by simp only [hf0, g], ?_, hnx0, ?_, ?_⟩
+    · refine ⟨?_, ?_, ?_⟩
+      · simp only [List.map_append, List.map_cons, List.map_nil]
+        rw [List.nodup_append]
+        refine ⟨hwf0.ids_nodup, by simp, ?_⟩
+        intro a ha b hb
+        simp only [List.mem_singleton] at hb
+        subst hb
+        intro e; subst e
+        rw [hids0] at ha
+        exact hid ha
+      · intro f hf
+        simp only [List.mem_append, List.mem_singleton] at hf
+        rcases hf with hf | rfl
+        · exact hwf0.ids_ne_store f hf
+        · exact hst
+      · intro f hf
+        simp only [List.mem_append, List.mem_singleton] at hf
+        rcases hf with hf | rfl
+        · exact hwf0.vers f hf
+        · exact ⟨Version.empty_wf _, rfl⟩
+    · intro f hf x hx
+      simp only [List.mem_append, List.mem_singleton] at hf
+      rcases hf with hf | rfl
+      · exact hnums0 f hf x hx
+      · simp [Version.nums, Version.empty] at hx
+    · intro j hj; rw [hy2] at hj; exact hcur0 j hj
+  · rintro name f ⟨o', ho', hon, fv, hfv, hidv, e, he, hef⟩
+    simp only [List.mem_append, List.mem_singleton] at hfv
+    rcases hfv with hfv | rfl
+    · -- an old family: its options entry is an old one
+      have ho'' : o' ∈ info := by
+        simp only [List.mem_append, List.mem_singleton] at ho'
+        rcases ho' with ho' | rfl
+        · exact ho'
+        · exfalso
+          apply hid
+          rw [← hids0, ← hidv]
+          have hfv' : fv ∈ vs0.fams := by rw [hf0]; exact hfv
+          exact List.mem_map.mpr ⟨fv, hfv', rfl⟩
+      obtain ⟨t, ht⟩ := h.tables name f ⟨o', ho'', hon, fv, hfv, hidv, e, he, hef⟩
+      exact ⟨t, by rw [hR]; exact ht.2.2, ht.2.1, by rw [hy4]; exact ht.2.2⟩
+    · simp [Version.empty] at he
+
+theorem OpOK.refl {m : Mem} {d : Disk} (h : Inv m d) : OpOK m d m [] :=
+  ⟨fun k => Or.inl (by rw [take_nil_disk]; exact h.cons), h, rfl⟩
+
+/-- store.CreateFamily: OPTIONS is replaced atomically, then the family directory is made -/
+theorem createFamily_ok {m : Mem} {d : Disk} {name : Nat} {thr : Int} {m' : Mem} {ops : List FsOp}
+    (h : Inv m d) (he : createFamily m d name thr = some (m', ops)) : OpOK m d m' ops := by
+  unfold createFamily at he
+  cases hf : m.fam? name with
+  | some f =>
+    simp only [hf, Option.some.injEq, Prod.mk.injEq] at he
+    obtain ⟨rfl, rfl⟩ := he
+    exact OpOK.refl h
+  | none =>
+    simp only [hf] at he
+    by_cases hdir : (Map.lookup d.famDirs name).isSome = true
+    · simp [hdir] at he
+    · simp only [hdir, Bool.false_eq_true, if_false, Option.some.injEq, Prod.mk.injEq] at he
+      obtain ⟨rfl, rfl⟩ := he
+      let id := m.familySeq + 1
+      let o : FamOpt := ⟨name, id, thr⟩
+      let g : FamV := ⟨id, Version.empty m.cfg.levels⟩
+      let m' : Mem := { m with familySeq := id, fams := m.fams ++ [⟨o, [], none⟩],
+                               vs := { m.vs with fams := m.vs.fams ++ [g] } }
+      have hinfo' : m'.info = m.info ++ [o] := by simp [m', Mem.info]
+      let d1 := applyFs d (.writeOptions m'.info)
+      let d2 := applyFs d1 (.mkdirFam name)
+      show OpOK m d m' [FsOp.writeOptions m'.info, FsOp.mkdirFam name]
+      have hname : o.name ∉ m.info.map (·.name) := by
+        intro hmem
+        simp only [Mem.info, List.map_map, List.mem_map, Function.comp_apply] at hmem
+        obtain ⟨f, hfm, hfn⟩ := hmem
+        have := List.find?_eq_none.mp hf f hfm
+        simp only [decide_eq_true_eq] at this
+        exact this hfn
+      have hidn : o.id ∉ m.info.map (·.id) := by
+        intro hmem
+        simp only [Mem.info, List.map_map, List.mem_map, Function.comp_apply] at hmem
+        obtain ⟨f, hfm, hfi⟩ := hmem
+        have := h.seq.2 f hfm
+        simp only [o, id] at hfi
+        omega
+      have hst : o.id ≠ storeFamilyID := by
+        have := h.seq.1
+        simp only [o, id, storeFamilyID]; omega
+      have hd1t : ∀ nm f, d1.table nm f = d.table nm f := fun nm f => table_frame _ _ _ _ (by simp [FsOp.touches])
+      have hd2t : ∀ nm f, d2.table nm f = d.table nm f := fun nm f => by
+        rw [← hd1t]; exact table_frame _ _ _ _ (by simp [FsOp.touches])
+      have hc1 : Consistent m.cfg d1 ⟨m.info ++ [o], m.vs.fams ++ [g], d2⟩ :=
+        createFamily_consistent m.cfg d h.cons o hname hidn hst d1 d2 (by simp [d1, applyFs, hinfo'])
+          (current_frame _ _ (by simp)) (fun j _ => manifest_frame _ _ j (by simp [FsOp.manifestOf])) hd1t hd2t
+      have hc2 : Consistent m.cfg d2 ⟨m.info ++ [o], m.vs.fams ++ [g], d2⟩ :=
+        createFamily_consistent m.cfg d h.cons o hname hidn hst d2 d2
+          (by rw [options_frame _ _ (by intro y; simp)]; simp [d1, applyFs, hinfo'])
+          (by rw [current_frame _ _ (by simp), current_frame _ _ (by simp)])
+          (fun j _ => by rw [manifest_frame _ _ j (by simp [FsOp.manifestOf]), manifest_frame _ _ j (by simp [FsOp.manifestOf])])
+          hd2t hd2t
+      have habs : absOf m' d2 = ⟨m.info ++ [o], m.vs.fams ++ [g], d2⟩ := by simp [absOf, hinfo', m']
+      refine ⟨?_, ?_, rfl⟩
+      · intro k
+        cases k with
+        | zero => left; simpa [applyFsList, absOf] using h.cons
+        | succ k =>
+          right
+          cases k with
+          | zero => show Consistent m.cfg d1 (absOf m' d2); rw [habs]; exact hc1
+          | succ k =>
+            have : applyFsList d (List.take (k + 1 + 1) [FsOp.writeOptions m'.info, FsOp.mkdirFam name]) = d2 := by
+              simp [applyFsList, d2, d1]
+            rw [this]
+            show Consistent m.cfg d2 (absOf m' d2); rw [habs]; exact hc2
+      · show Inv m' d2
+        obtain ⟨vsr, _, hfr, hwfr, _, _, _⟩ := hc2.recov
+        refine ⟨by rw [← habs] at hc2; exact hc2, ?_, h.jlt, ?_, ?_, ?_, ?_, ?_, ?_⟩
+        · rw [current_frame _ _ (by simp), current_frame _ _ (by simp)]; exact h.cur
+        · intro f hf x hx
+          simp only [m', List.mem_append, List.mem_singleton] at hf
+          rcases hf with hf | rfl
+          · exact h.nums f hf x hx
+          · simp [g, Version.nums, Version.empty] at hx
+        · have hfe : vsr.fams = m'.vs.fams := hfr
+          exact ⟨by rw [← hfe]; exact hwfr.ids_nodup, by rw [← hfe]; exact hwfr.ids_ne_store, by rw [← hfe]; exact hwfr.vers⟩
+        · simp only [m', List.map_append, List.map_cons, List.map_nil, h.ids]
+          rfl
+        · intro f hf x hx
+          simp only [m', List.mem_append, List.mem_singleton] at hf
+          rcases hf with hf | rfl
+          · have := h.pend f hf x hx
+            refine ⟨this.1, ?_⟩
+            intro v hv
+            -- the version of an old family is unchanged
+            have : m.vs.verOf f.opt.id = some v := by
+              have hne : f.opt.id ≠ id := by have := h.seq.2 f hf; simp only [id]; omega
+              simp only [VS.verOf, m', List.find?_append] at hv
+              cases hq : m.vs.fams.find? (fun x => decide (x.id = f.opt.id)) with
+              | some w => simp only [hq, Option.some_or] at hv; simp [VS.verOf, hq, hv]
+              | none =>
+                simp only [hq, Option.none_or, List.find?_cons, g] at hv
+                have : ¬ (id = f.opt.id) := fun e => hne e.symm
+                simp [this] at hv
+            exact (h.pend f hf x hx).2 v this
+          · simp at hx
+        · intro f hf fl hfl
+          simp only [m', List.mem_append, List.mem_singleton] at hf
+          rcases hf with hf | rfl
+          · exact h.builder f hf fl hfl
+          · simp at hfl
+        · refine ⟨by have := h.seq.1; show 0 ≤ id; simp only [id]; omega, ?_⟩
+          intro f hf
+          simp only [m', List.mem_append, List.mem_singleton] at hf
+          rcases hf with hf | rfl
+          · have := h.seq.2 f hf; show f.opt.id ≤ id; simp only [id]; omega
+          · show id ≤ id; omega
+
+/-- store.close: only the LOCK file goes away -/
+theorem closeStore_ok {m : Mem} {d : Disk} (h : Inv m d) :
+    ∀ k, Consistent m.cfg (applyFsList d ((closeStore m).take k)) (absOf m d) := by
+  apply prefix_inv (fun x => Consistent m.cfg x (absOf m d))
+  · exact h.cons
+  · intro o ho x hx
+    simp only [closeStore, List.mem_singleton] at ho
+    subst ho
+    exact hx.step m.cfg _ (by rw [options_frame _ _ (by intro y; simp)]) (by simp)
+      (by intro j _; simp [FsOp.manifestOf]) (by intro nm f e; simp [FsOp.touches] at e)
+
+/-! ### compaction -/
+
+theorem Inv.ids_inj {m : Mem} {d : Disk} (h : Inv m d) {f g : Fam} (hf : f ∈ m.fams) (hg : g ∈ m.fams)
+    (e : g.opt.id = f.opt.id) : g = f := by
+  have hn : (m.fams.map (·.opt.id)).Nodup := by rw [← h.ids]; exact h.wf.ids_nodup
+  exact nodup_map_inj hn hg hf e
+
+/-- table operations on unreferenced tables, one commit, then the deferred deleteObsoleteFiles -/
+theorem commitAndClean_ok {m : Mem} {d : Disk} (h : Inv m d) {name : Nat} {f : Fam} (hfm : f ∈ m.fams)
+    (hfn : f.opt.name = name) (hff : m.fam? name = some f)
+    (pre : List FsOp) (logs : List Log) (kind : String) (m' : Mem) (ops : List FsOp) (kind' : String)
+    (hpre : TableOnly (absOf m d) pre)
+    (he : commitAndClean m d name f.opt.id pre logs kind = some (m', ops, kind'))
+    (hnew : ∀ y ∈ logs.flatMap Log.newNums, y < m.vs.next)
+    (hnewtab : ∀ g ∈ logs.flatMap Log.newFiles, ∃ t, (applyFsList d pre).table name g = some t ∧ t.complete = true)
+    (hpn : ∀ x ∈ f.pending, x ∉ logs.flatMap Log.newNums) :
+    OpOK m d m' ops := by
+  unfold commitAndClean at he
+  cases hc : commitEditLog m f.opt.id logs with
+  | none => simp [hc] at he
+  | some r =>
+    obtain ⟨m1, cops⟩ := r
+    simp only [hc, Option.some.injEq, Prod.mk.injEq] at he
+    obtain ⟨rfl, rfl, _⟩ := he
+    have hr := commit_ok h pre f.opt.id logs m1 cops hpre hc hnew
+      (by intro o ho hoid g hg
+          have : o = f.opt := h.info_id_inj ho hfm hoid
+          subst this
+          rw [hfn]; exact hnewtab g hg)
+    have hm1 : m1.fams = m.fams := by rw [hr.mem]
+    have hpost : TableOnly ⟨m.info, m1.vs.fams, applyFsList d pre⟩ (cleanupOps m1 (applyFsList d (pre ++ cops)) name f.opt.id) := by
+      intro o ho
+      unfold cleanupOps at ho
+      have hff1 : m1.fam? name = some f := by
+        simp only [Mem.fam?, hm1]; exact hff
+      rw [hff1] at ho
+      cases hv : m1.vs.verOf f.opt.id with
+      | none => simp [hv] at ho
+      | some v' =>
+        simp only [hv] at ho
+        obtain ⟨g, rfl, hl⟩ := mem_famObsoleteOps ho
+        refine ⟨by intro y; simp, by simp, rfl, ?_⟩
+        intro nm g' e
+        simp only [FsOp.touches, Option.some.injEq, Prod.mk.injEq] at e
+        obtain ⟨rfl, rfl⟩ := e
+        have hfo : f.opt ∈ m.info := by simp only [Mem.info, List.mem_map]; exact ⟨f, hfm, rfl⟩
+        have := not_refs_of_not_live (a := ⟨m.info, m1.vs.fams, applyFsList d pre⟩) (vs := m1.vs)
+          h.cons.names hr.wf.ids_nodup rfl hfo hv hl
+        rw [hfn] at this
+        exact this
+    exact finish_ok h hr _ hpost m1 (by rw [hr.mem]) rfl (by rw [hr.mem]) (by simp only [Mem.info, hm1])
+      (by
+        intro g hg x hx
+        have hg' : g ∈ m.fams := by rw [← hm1]; exact hg
+        have hp := h.pend g hg' x hx
+        refine ⟨by have := hr.next_le; omega, ?_⟩
+        intro v' hv' hmem'
+        obtain ⟨v, hv, hsub⟩ := hr.vers _ _ hv'
+        rcases hsub x hmem' with h1 | ⟨hid, h1⟩
+        · exact hp.2 v hv h1
+        · have : g = f := h.ids_inj hfm hg' hid
+          subst this
+          exact hpn x hx h1)
+      (by
+        intro g hg
+        have hg' : g ∈ m.fams := by rw [← hm1]; exact hg
+        exact h.builder g hg')
+      (by rw [hr.mem])
+
+theorem OpOK.of_bump {m : Mem} {d : Disk} {m' : Mem} {ops : List FsOp}
+    (h : OpOK { m with vs := { m.vs with next := m.vs.next + 1 } } d m' ops) : OpOK m d m' ops :=
+  ⟨h.prefixes, h.inv, h.cfg⟩
+
+theorem mem_filesAt {v : Version} {lvl : Int} {e : Int × FileMeta} (h : e ∈ filesAt v lvl) :
+    ((lvl, e.1), e.2) ∈ v.files := by
+  simp only [filesAt, List.mem_map, List.mem_filter, decide_eq_true_eq] at h
+  obtain ⟨x, ⟨hx, hl⟩, rfl⟩ := h
+  obtain ⟨⟨a, b⟩, c⟩ := x
+  simp only at hl
+  subst hl
+  exact hx
+
+theorem newNums_deletes (l0 up : List (Int × FileMeta)) :
+    (l0.map (fun e => Log.deleteFile 0 e.1) ++ up.map (fun e => Log.deleteFile 1 e.1)).flatMap Log.newNums = [] ∧
+    (l0.map (fun e => Log.deleteFile 0 e.1) ++ up.map (fun e => Log.deleteFile 1 e.1)).flatMap Log.newFiles = [] := by
+  constructor <;>
+  · simp only [List.flatMap_append, List.append_eq_nil_iff, List.flatMap_eq_nil_iff, List.mem_map]
+    constructor <;> (rintro l ⟨e, _, rfl⟩; rfl)
+
+/-- family.backgroundCompactionJob (trivial move, merge, nothing to do, unreadable input) -/
+theorem compact_ok {m : Mem} {d : Disk} {name : Nat} {size : Nat} {m' : Mem} {ops : List FsOp} {kind : String}
+    (h : Inv m d) (he : compact m d name size = some (m', ops, kind)) : OpOK m d m' ops := by
+  unfold compact at he
+  cases hf : m.fam? name with
+  | none => simp [hf] at he
+  | some f =>
+    obtain ⟨hfm, hfn⟩ := fam?_some hf
+    simp only [hf] at he
+    cases hv : m.vs.verOf f.opt.id with
+    | none => simp [hv] at he
+    | some v =>
+      simp only [hv] at he
+      have hnil : ∀ (kd : String), commitAndClean m d name f.opt.id [] [] kd = some (m', ops, kind) → OpOK m d m' ops := by
+        intro kd hk
+        exact commitAndClean_ok h hfm hfn hf [] [] kd m' ops kind (tableOnly_nil _) hk
+          (by intro y hy; simp at hy) (by intro g hg; simp at hg) (by intro x _ hx; simp at hx)
+      split at he
+      · exact hnil _ he
+      · split at he
+        · -- trivial move
+          rename_i n fm hl0 hup
+          have hmem : (n, fm) ∈ filesAt v 0 := by rw [hl0]; simp
+          have hfile := mem_filesAt hmem
+          obtain ⟨fv, hfv, hfid, hfver⟩ := verOf_some hv
+          have hnum : n ∈ v.nums := by
+            simp only [Version.nums, List.mem_append, List.mem_map]
+            left; exact ⟨_, hfile, rfl⟩
+          refine commitAndClean_ok h hfm hfn hf [] _ _ m' ops kind (tableOnly_nil _) he ?_ ?_ ?_
+          · intro y hy
+            simp only [List.flatMap_cons, List.flatMap_nil, Log.newNums, List.nil_append, List.append_nil,
+              List.mem_singleton] at hy
+            subst hy
+            rw [← hfver] at hnum
+            exact h.nums fv hfv _ hnum
+          · intro g hg
+            simp only [List.flatMap_cons, List.flatMap_nil, Log.newFiles, List.nil_append, List.append_nil,
+              List.mem_singleton] at hg
+            subst hg
+            have hfo : f.opt ∈ m.info := by simp only [Mem.info, List.mem_map]; exact ⟨f, hfm, rfl⟩
+            obtain ⟨t, ht⟩ := h.cons.tables name g ⟨f.opt, hfo, hfn, fv, hfv, hfid, _, by rw [hfver]; exact hfile, rfl⟩
+            exact ⟨t, ht.2.2, ht.2.1⟩
+          · intro x hx hmem'
+            simp only [List.flatMap_cons, List.flatMap_nil, Log.newNums, List.nil_append, List.append_nil,
+              List.mem_singleton] at hmem'
+            subst hmem'
+            exact (h.pend f hfm _ hx).2 v hv hnum
+        · split at he
+          · exact hnil _ he
+          · split at he
+            · rename_i cs hrd hout
+              obtain ⟨hn1, hn2⟩ := newNums_deletes (filesAt v 0)
+                ((filesAt v 1).filter (fun e => (filesAt v 0).any (fun lo => overlaps e.2 lo.2.minKey lo.2.maxKey)))
+              exact commitAndClean_ok h hfm hfn hf [] _ _ m' ops kind (tableOnly_nil _) he
+                (by rw [hn1]; intro y hy; simp at hy) (by rw [hn2]; intro g hg; simp at hg)
+                (by rw [hn1]; intro x _ hx; simp at hx)
+            · rename_i cs hrd hout
+              obtain ⟨hn1, hn2⟩ := newNums_deletes (filesAt v 0)
+                ((filesAt v 1).filter (fun e => (filesAt v 0).any (fun lo => overlaps e.2 lo.2.minKey lo.2.maxKey)))
+              apply OpOK.of_bump
+              have hb := h.bump
+              refine commitAndClean_ok hb hfm hfn hf _ _ _ m' ops kind ?_ he ?_ ?_ ?_
+              · intro o ho
+                simp only [List.mem_cons, List.mem_singleton, List.not_mem_nil, or_false] at ho
+                rcases ho with rfl | rfl
+                · refine ⟨by intro y; simp, by simp, rfl, ?_⟩
+                  intro nm g e
+                  simp only [FsOp.touches, Option.some.injEq, Prod.mk.injEq] at e
+                  obtain ⟨rfl, rfl⟩ := e
+                  exact h.not_refs_ge d _ _ (Int.le_refl _)
+                · refine ⟨by intro y; simp, by simp, rfl, ?_⟩
+                  intro nm g e
+                  simp only [FsOp.touches, Option.some.injEq, Prod.mk.injEq] at e
+                  obtain ⟨rfl, rfl⟩ := e
+                  exact h.not_refs_ge d _ _ (Int.le_refl _)
+              · intro y hy
+                rw [List.flatMap_append, hn1] at hy
+                simp only [List.nil_append, List.flatMap_cons, List.flatMap_nil, Log.newNums, List.append_nil,
+                  List.mem_singleton] at hy
+                subst hy
+                show m.vs.next < m.vs.next + 1
+                omega
+              · intro g hg
+                rw [List.flatMap_append, hn2] at hg
+                simp only [List.nil_append, List.flatMap_cons, List.flatMap_nil, Log.newFiles, List.append_nil,
+                  List.mem_singleton] at hg
+                subst hg
+                refine ⟨⟨true, mergeContents cs⟩, ?_, rfl⟩
+                simp only [applyFsList, List.foldl_cons, List.foldl_nil]
+                exact table_closeTable _ _ _ _
+              · intro x hx hmem'
+                rw [List.flatMap_append, hn1] at hmem'
+                simp only [List.nil_append, List.flatMap_cons, List.flatMap_nil, Log.newNums, List.append_nil,
+                  List.mem_singleton] at hmem'
+                subst hmem'
+                have := (h.pend f hfm _ hx).1
+                omega
 
 end LinVerif.Kv
